@@ -90,14 +90,14 @@ Ltac sd := cbn [l_kind l_esize l_items d_kind d_esize d_len d_cap d_data set_len
 (* ---------------------------------------------------------------- invariant *)
 Definition good_params (P : params) : Prop :=
   (1 <= p_init P)%nat /\ (2 <= p_growth P)%nat /\
-  (Z.of_nat (p_init P) <= p_limit P <= 1099511627776)%Z /\
-  (forall k, (p_esize P k < 256)%N).
+  (Z.of_nat (p_init P) <= p_limit P)%Z /\ (p_limit P * Z.of_N (p_esize_mod P) <= 4611686018427387904)%Z /\
+  (1 < p_esize_mod P)%N /\ (forall k, (p_esize P k < p_esize_mod P)%N).
 
 Definition blob_ok (es : N) (c : cell) : Prop := exists bs, c = Blob bs /\ N.of_nat (length bs) = es.
 Definition cell_ok (k : ekind) (es : N) (c : cell) : Prop := c <> Uninit /\ (k = EStruct -> blob_ok es c).
 
 Definition inv (P : params) (d : dyn) : Prop :=
-  (d_len d <= d_cap d)%nat /\ (1 <= d_cap d)%nat /\ (d_esize d < 256)%N /\
+  (d_len d <= d_cap d)%nat /\ (1 <= d_cap d)%nat /\ (d_esize d < p_esize_mod P)%N /\
   (d_kind d <> EStruct -> d_esize d = p_esize P (d_kind d)) /\
   (d_kind d = EStruct -> (0 < d_len d)%nat -> (0 < d_esize d)%N) /\
   match d_data d with
@@ -107,7 +107,7 @@ Definition inv (P : params) (d : dyn) : Prop :=
 
 Lemma inv_new P k : good_params P -> inv P (dyn_new P k).
 Proof.
-  intros (Hi & Hg & Hl & He). unfold dyn_new, inv.
+  intros (Hi & Hg & Hl & Hlm & Hm & He). unfold dyn_new, inv.
   destruct k; simpl; repeat split; auto; try lia; try congruence; try apply He; try apply repeat_length; try constructor.
 Qed.
 
@@ -125,7 +125,7 @@ Lemma push_cell_ok P d c els :
   exists d', push_cell P d c = ROk d' OUnit /\
              abs d' = with_items (abs d) (l_items (abs d) ++ [c]) /\ inv P d'.
 Proof.
-  intros (Hi & Hg & Hl & He) (H1 & H2 & H3 & H4 & H5 & H6) Hd Hc Hpos. rewrite Hd in H6. destruct H6 as [H6 H7].
+  intros (Hi & Hg & Hl & Hlm & Hm & He) (H1 & H2 & H3 & H4 & H5 & H6) Hd Hc Hpos. rewrite Hd in H6. destruct H6 as [H6 H7].
   unfold push_cell.
   destruct (Nat.leb (d_cap d) (d_len d)) eqn:Eg.
   - (* grow *)
@@ -382,9 +382,9 @@ Proof.
   destruct (n <=? Z.of_nat (d_cap d))%Z eqn:Ec.
   - exists d. auto.
   - apply Z.leb_gt in Ec.
-    destruct GP as (Hi & Hg & Hl & He). destruct I as (H1 & H2 & H3 & H4 & H5 & H6).
+    destruct GP as (Hi & Hg & Hl & Hlm & Hm & He). destruct I as (H1 & H2 & H3 & H4 & H5 & H6).
     assert (Hov : (9223372036854775807 <? n * Z.of_N (d_esize d))%Z = false).
-    { apply Z.ltb_ge. assert (Z.of_N (d_esize d) < 256)%Z by lia. nia. }
+    { apply Z.ltb_ge. assert (Z.of_N (d_esize d) < Z.of_N (p_esize_mod P))%Z by lia. nia. }
     rewrite Hov. eexists; split; [reflexivity|].
     assert (Hn : (d_cap d < Z.to_nat n)%nat) by lia.
     split.
@@ -407,7 +407,7 @@ Proof. destruct l; reflexivity. Qed.
 
 Lemma push_struct_ok P d bs :
   good_params P -> inv P d -> d_kind d = EStruct ->
-  (0 < N.of_nat (length bs) < 256)%N ->
+  (0 < N.of_nat (length bs) < p_esize_mod P)%N ->
   (d_esize d = N.of_nat (length bs) \/ (d_esize d = 0%N /\ d_len d = 0%nat)) ->
   exists d', push_struct P d bs = ROk d' OUnit /\ inv P d' /\ d_kind d' = EStruct /\
              d_esize d' = N.of_nat (length bs) /\ l_items (abs d') = l_items (abs d) ++ [Blob bs].
@@ -446,8 +446,8 @@ Proof.
     change (l_esize (abs d)) with (d_esize d). auto.
 Qed.
 
-Lemma struct_size_ok_spec bs : struct_size_ok bs = true -> (0 < N.of_nat (length bs) < 256)%N.
-Proof. unfold struct_size_ok. rewrite andb_true_iff, !Nat.ltb_lt. lia. Qed.
+Lemma struct_size_ok_spec P bs : struct_size_ok P bs = true -> (0 < N.of_nat (length bs) < p_esize_mod P)%N.
+Proof. unfold struct_size_ok. rewrite andb_true_iff, Nat.ltb_lt, N.ltb_lt. lia. Qed.
 
 Lemma lst_eq a b : l_kind a = l_kind b -> l_esize a = l_esize b -> l_items a = l_items b -> a = b.
 Proof. destruct a, b; simpl; intros; subst; reflexivity. Qed.
@@ -455,7 +455,7 @@ Proof. destruct a, b; simpl; intros; subst; reflexivity. Qed.
 Lemma sim_pushs P d bs : good_params P -> inv P d -> sim_goal P d (PushStruct bs).
 Proof.
   intros GP I. unfold sim_goal. cbn [lstep step].
-  destruct (struct_size_ok bs) eqn:Es; cbn [negb]; [|trivial].
+  destruct (struct_size_ok P bs) eqn:Es; cbn [negb]; [|trivial].
   apply struct_size_ok_spec in Es.
   change (l_kind (abs d)) with (d_kind d). change (l_esize (abs d)) with (d_esize d).
   pose proof I as (H1 & H2 & H3 & H4 & H5 & H6).
@@ -569,12 +569,11 @@ Qed.
 Lemma sim_clone P d : good_params P -> inv P d -> sim_goal P d Clone.
 Proof.
   intros GP I. unfold sim_goal. cbn [lstep step]. change (l_kind (abs d)) with (d_kind d). rewrite (abs_len _ _ I).
-  destruct (p_limit P <? Z.of_nat (d_len d))%Z eqn:El; [rewrite orb_true_r; trivial|]. rewrite orb_false_r.
+  destruct (p_limit P <? Z.of_nat (d_len d))%Z eqn:El; [trivial|].
   apply Z.ltb_ge in El.
   destruct (ekind_eqb (d_kind d) EStruct) eqn:Ek.
-  - (* struct array: only the repaired code is inside the specification *)
-    destruct (p_clone_struct_fixed P) eqn:Fx; cbn [negb andb]; [|trivial].
-    apply ekind_eqb_eq in Ek. unfold clone. rewrite Fx. rewrite (proj2 (ekind_eqb_eq _ _) Ek). cbn [andb].
+  - (* struct array *)
+    apply ekind_eqb_eq in Ek. unfold clone. rewrite (proj2 (ekind_eqb_eq _ _) Ek). cbn [andb].
     pose proof I as (H1 & H2 & H3 & H4 & H5 & H6).
     destruct (d_len d) as [|n] eqn:En.
     + (* empty source: the fresh array *)
@@ -586,7 +585,7 @@ Proof.
       { intros C. pose proof (abs_len _ _ I) as HL. rewrite C, En in HL. discriminate. }
       destruct (l_items (abs d)) eqn:Ei; [contradiction|].
       set (n0 := {| d_kind := EStruct; d_esize := d_esize d; d_len := 0; d_cap := p_init P; d_data := Some (repeat Uninit (p_init P)) |}).
-      destruct GP as (Gi & Gg & Gl & Ge).
+      destruct GP as (Gi & Gg & Gl & Glm & Gm & Ge).
       assert (I0 : inv P n0).
       { unfold inv, n0; cbn [d_kind d_esize d_len d_cap d_data]. split; [lia|]. split; [lia|]. split; [exact H3|].
         split; [intros C; contradiction|]. split; [intros; lia|]. split; [apply repeat_length|constructor]. }
@@ -595,7 +594,7 @@ Proof.
                   ltac:(rewrite En in *; exact El)) as (d' & C1 & C2 & C3).
       rewrite Hsrc in C1. rewrite En in *. exists d'. split; [exact C1|]. split; [|exact C3].
       exact C2.
-  - cbn [andb]. apply ekind_eqb_neq in Ek. unfold clone. rewrite (proj2 (ekind_eqb_neq _ _) Ek). rewrite andb_false_r. cbn [andb].
+  - apply ekind_eqb_neq in Ek. unfold clone. rewrite (proj2 (ekind_eqb_neq _ _) Ek). cbn [andb].
     destruct (inv_data_some _ _ I Ek) as [src Hsrc].
     pose proof I as (H1 & H2 & H3 & H4 & H5 & H6).
     assert (D0 : exists dst0, d_data (dyn_new P (d_kind d)) = Some dst0).
@@ -702,19 +701,11 @@ Proof.
   assert (Ha2 : (0 <= a2 <= n)%Z) by (unfold a2; destruct (n <? a1)%Z eqn:E; [unfold n; lia|apply Z.ltb_ge in E; lia]).
   assert (He : (a2 <= e <= n)%Z) by (unfold e; destruct (n <? a2 + b1)%Z eqn:E; [lia|apply Z.ltb_ge in E; lia]).
   set (i0 := Z.to_nat a2). set (m := Z.to_nat (e - a2)).
-  (* both texts of nl_array_slice run the same loop: same start, same count *)
-  assert (Hloop : negb (p_slice_clamped P) && (9223372036854775807 <? a2 + b1)%Z = false ->
-            (if p_slice_clamped P
-             then slice_loop P d (dyn_new P (d_kind d)) i0 (Z.to_nat (if (n - a2 <? b1)%Z then (n - a2)%Z else b1))
-             else if (9223372036854775807 <? a2 + b1)%Z then RCrash
-                  else slice_loop P d (dyn_new P (d_kind d)) i0 m)
-            = slice_loop P d (dyn_new P (d_kind d)) i0 m).
-  { intros Hx. destruct (p_slice_clamped P); cbn [negb andb] in Hx.
-    - f_equal. unfold m, e. destruct (n - a2 <? b1)%Z eqn:A; destruct (n <? a2 + b1)%Z eqn:B;
-        try apply Z.ltb_lt in A; try apply Z.ltb_ge in A; try apply Z.ltb_lt in B; try apply Z.ltb_ge in B; lia.
-    - rewrite Hx. reflexivity. }
-  destruct (negb (p_slice_clamped P) && (9223372036854775807 <? a2 + b1)%Z) eqn:Hx; [trivial|].
-  rewrite (Hloop eq_refl). clear Hloop.
+  (* the clamped length is the count the specification takes *)
+  assert (Hm : Z.to_nat (if (n - a2 <? b1)%Z then (n - a2)%Z else b1) = m).
+  { unfold m, e. destruct (n - a2 <? b1)%Z eqn:A; destruct (n <? a2 + b1)%Z eqn:B;
+      try apply Z.ltb_lt in A; try apply Z.ltb_ge in A; try apply Z.ltb_lt in B; try apply Z.ltb_ge in B; lia. }
+  rewrite Hm. clear Hm.
   assert (Hb : (i0 + m <= d_len d)%nat) by (unfold i0, m, n in *; lia).
   pose proof (abs_len _ _ I) as HL.
   assert (Hlen : length (firstn m (skipn i0 (l_items (abs d)))) = m) by (apply firstn_skipn_len; lia).
